@@ -279,3 +279,196 @@ Section Main.
     apply match_node_layout_sim; try assumption. reflexivity.
   Qed.
 End Main.
+
+(* ------------------------------------------------------------------ code view *)
+(** number of code tokens before position [p] *)
+Definition crank (l : list ptok) (p : N) : N := lenN (filter p_code (firstn (N.to_nat p) l)).
+
+(** node types over code tokens: the match tree with every span end replaced by its code rank
+    (inserted metas dropped) *)
+Inductive cv := CV (m : option matched) (s e : N) (ch : list cv).
+Fixpoint cview (l : list ptok) (x : mr) : cv :=
+  match x with MR s e m _ ch => CV m (crank l s) (crank l e) (map (cview l) ch) end.
+
+(** no unparsable section anywhere in the match tree *)
+Fixpoint clean_b (g : grammar) (x : mr) : bool :=
+  match x with
+  | MR _ _ m _ ch =>
+      negb (match m with Some (MKind k) => k =? k_unparsable g | _ => false end) && forallb (clean_b g) ch
+  end.
+
+Lemma filter_code_block g b : blk_ok g b -> filter p_code (bleft b) = filter p_code (bright b).
+Proof.
+  destruct b as [t|w x w' x']; [reflexivity|]. intros (H1 & H2 & _). cbn [bleft bright].
+  assert (Hn : forall l, Forall (okgap g) l -> filter p_code l = []).
+  { induction 1 as [|t l Ht _ IH]; [reflexivity|]. cbn. rewrite (okgap_code g t Ht). exact IH. }
+  rewrite (Hn _ H1), (Hn _ H2). reflexivity.
+Qed.
+Lemma filter_code_blocks g b1 : Forall (blk_ok g) b1 -> filter p_code (lleft b1) = filter p_code (lright b1).
+Proof.
+  induction 1 as [|b b1 Hb _ IH]; [reflexivity|].
+  cbn [lleft lright flat_map]. rewrite !filter_app. fold (lleft b1) (lright b1).
+  rewrite IH, (filter_code_block g b Hb). reflexivity.
+Qed.
+
+Lemma crank_sim g bs p p' : Forall (blk_ok g) bs -> Rb bs p p' -> crank (lleft bs) p = crank (lright bs) p'.
+Proof.
+  intros Hok (b1 & b2 & -> & -> & ->). unfold crank.
+  rewrite lleft_app, lright_app.
+  replace (N.to_nat (lenN (lleft b1))) with (length (lleft b1)) by (unfold lenN; lia).
+  replace (N.to_nat (lenN (lright b1))) with (length (lright b1)) by (unfold lenN; lia).
+  rewrite !firstn_app, !Nat.sub_diag, !firstn_all. cbn [firstn]. rewrite !app_nil_r.
+  apply Forall_app in Hok as [Hok1 _]. rewrite (filter_code_blocks g b1 Hok1). reflexivity.
+Qed.
+
+Lemma cview_sim g bs : Forall (blk_ok g) bs ->
+  forall m m', mr_sim (Rb bs) m m' -> cview (lright bs) m' = cview (lleft bs) m.
+Proof.
+  intro Hok. fix IH 3. intros m m' H. destruct H as [s s' e e' mt i i' c c' Hs He Hi Hc]. cbn [cview].
+  rewrite (crank_sim g bs _ _ Hok Hs), (crank_sim g bs _ _ Hok He). f_equal.
+  induction Hc as [|x y c c' Hxy Hc IHc]; [reflexivity|]. cbn [map]. rewrite (IH _ _ Hxy), IHc. reflexivity.
+Qed.
+
+Lemma clean_sim g R : forall m m', mr_sim R m m' -> clean_b g m' = clean_b g m.
+Proof.
+  fix IH 3. intros m m' H. destruct H as [s s' e e' mt i i' c c' Hs He Hi Hc]. cbn [clean_b]. f_equal.
+  induction Hc as [|x y c c' Hxy Hc IHc]; [reflexivity|]. cbn [forallb]. rewrite (IH _ _ Hxy), IHc. reflexivity.
+Qed.
+
+(* ------------------------------------------------------------------ the code span of a token list *)
+(** [FileSegment::root_parse] hands the grammar the span from the first to the last code token *)
+Definition cstart (l : list ptok) : N := match position p_code l with Some i => i | None => 0 end.
+Definition cend (l : list ptok) : N := match rposition_succ p_code l with Some i => i | None => cstart l end.
+
+Lemma position_app {A} (f : A -> bool) (a b : list A) : (forall x, In x a -> f x = false) ->
+  position f (a ++ b) = option_map (fun i => lenN a + i) (position f b).
+Proof.
+  induction a as [|x a IH]; intro H; cbn [app position].
+  - destruct (position f b); cbn [option_map]; [f_equal; unfold lenN; cbn [length]; lia|reflexivity].
+  - rewrite (H x (or_introl eq_refl)). rewrite IH by (intros; apply H; right; assumption).
+    destruct (position f b); cbn [option_map]; [f_equal; unfold lenN; cbn [length]; lia|reflexivity].
+Qed.
+Lemma rposition_app_none {A} (f : A -> bool) (a b : list A) : (forall x, In x b -> f x = false) ->
+  rposition_succ f (a ++ b) = rposition_succ f a.
+Proof.
+  intro Hb. assert (Hn : rposition_succ f b = None).
+  { induction b as [|x b IH]; [reflexivity|]. cbn. rewrite IH by (intros; apply Hb; right; assumption).
+    rewrite (Hb x (or_introl eq_refl)). reflexivity. }
+  induction a as [|x a IH]; cbn [app rposition_succ]; [exact Hn|]. rewrite IH. reflexivity.
+Qed.
+Lemma rposition_app_some {A} (f : A -> bool) (a b : list A) i : rposition_succ f b = Some i ->
+  rposition_succ f (a ++ b) = Some (lenN a + i).
+Proof.
+  intro Hb. induction a as [|x a IH]; cbn [app rposition_succ].
+  - rewrite Hb. reflexivity.
+  - rewrite IH. f_equal. unfold lenN. cbn [length]. lia.
+Qed.
+
+Lemma noncode_block g b : blk_ok g b -> (forall t, b <> BSig t \/ p_code t = false) ->
+  (forall x, In x (bleft b) -> p_code x = false) /\ (forall x, In x (bright b) -> p_code x = false).
+Proof.
+  destruct b as [t|w x w' x']; intros Hb Hc.
+  - destruct (Hc t) as [H|H]; [congruence|]. split; intros y [<-|[]]; exact H.
+  - destruct Hb as (H1 & H2 & _). rewrite Forall_forall in H1, H2.
+    split; intros y Hy; [exact (okgap_code g y (H1 y Hy))|exact (okgap_code g y (H2 y Hy))].
+Qed.
+
+Lemma cstart_sim g bs : Forall (blk_ok g) bs -> Rb bs (cstart (lleft bs)) (cstart (lright bs)).
+Proof.
+  intro Hok. unfold cstart.
+  assert (H : forall b1 b2, bs = b1 ++ b2 ->
+            match position p_code (lleft b2), position p_code (lright b2) with
+            | Some i, Some i' => Rb bs (lenN (lleft b1) + i) (lenN (lright b1) + i')
+            | None, None => True
+            | _, _ => False
+            end).
+  { intros b1 b2. revert b1. induction b2 as [|b b2 IH]; intros b1 E; [exact I|].
+    assert (Hb : blk_ok g b) by (rewrite Forall_forall in Hok; apply Hok; rewrite E; apply in_elt).
+    cbn [lleft lright flat_map]. fold (lleft b2) (lright b2).
+    destruct b as [t|w x w' x'] eqn:Eb.
+    - cbn [bleft bright app position]. destruct (p_code t) eqn:Ec.
+      + rewrite !N.add_0_r. exists b1, (BSig t :: b2). auto.
+      + specialize (IH (b1 ++ [BSig t])). rewrite <- app_assoc in IH. specialize (IH E).
+        rewrite lleft_app, lright_app, !lenN_app in IH. cbn in IH.
+        destruct (position p_code (lleft b2)), (position p_code (lright b2)); cbn; try exact IH.
+        replace (lenN (lleft b1) + N.succ n) with (lenN (lleft b1) + lenN [t] + n) by (unfold lenN; cbn; lia).
+        replace (lenN (lright b1) + N.succ n0) with (lenN (lright b1) + lenN [t] + n0) by (unfold lenN; cbn; lia).
+        exact IH.
+    - destruct (noncode_block g (BGap w x w' x') Hb) as [Hl Hr]; [intro; left; discriminate|].
+      cbn [bleft bright] in *. rewrite (position_app _ _ _ Hl), (position_app _ _ _ Hr).
+      specialize (IH (b1 ++ [BGap w x w' x'])). rewrite <- app_assoc in IH. specialize (IH E).
+      rewrite lleft_app, lright_app, !lenN_app in IH. cbn [lleft lright flat_map bleft bright] in IH.
+      rewrite !app_nil_r in IH.
+      destruct (position p_code (lleft b2)), (position p_code (lright b2)); cbn; try exact IH.
+      rewrite !N.add_assoc. exact IH. }
+  specialize (H [] bs eq_refl). cbn in H.
+  destruct (position p_code (lleft bs)), (position p_code (lright bs)); try contradiction; [exact H|].
+  exists [], bs. auto.
+Qed.
+
+Lemma cend_sim g bs : Forall (blk_ok g) bs -> Rb bs (cend (lleft bs)) (cend (lright bs)).
+Proof.
+  intro Hok. unfold cend.
+  assert (H : forall b1 b2, bs = b1 ++ b2 ->
+            match rposition_succ p_code (lleft b1), rposition_succ p_code (lright b1) with
+            | Some i, Some i' => Rb bs i i'
+            | None, None => True
+            | _, _ => False
+            end).
+  { intros b1. induction b1 as [|b b1 IH] using rev_ind; intros b2 E; [exact I|].
+    rewrite <- app_assoc in E. cbn in E.
+    assert (Hb : blk_ok g b) by (rewrite Forall_forall in Hok; apply Hok; rewrite E; apply in_elt).
+    specialize (IH _ E). rewrite lleft_app, lright_app. cbn [lleft lright flat_map]. rewrite !app_nil_r.
+    destruct b as [t|w x w' x'] eqn:Eb.
+    - cbn [bleft bright]. destruct (p_code t) eqn:Ec.
+      + rewrite (rposition_app_some p_code (lleft b1) [t] 1), (rposition_app_some p_code (lright b1) [t] 1)
+          by (cbn; rewrite Ec; reflexivity).
+        exists (b1 ++ [BSig t]), b2. rewrite <- app_assoc. split; [exact E|].
+        rewrite lleft_app, lright_app, !lenN_app. split; reflexivity.
+      + rewrite !rposition_app_none by (intros y [<-|[]]; exact Ec). exact IH.
+    - destruct (noncode_block g (BGap w x w' x') Hb) as [Hl Hr]; [intro; left; discriminate|].
+      cbn [bleft bright] in *. rewrite !rposition_app_none by assumption. exact IH. }
+  specialize (H bs [] (eq_sym (app_nil_r bs))).
+  destruct (rposition_succ p_code (lleft bs)), (rposition_succ p_code (lright bs)); try contradiction; [exact H|].
+  apply (cstart_sim g bs Hok).
+Qed.
+
+(* ------------------------------------------------------------------ the property-level statement *)
+(** Layout clause of C11 on the interpreter: if the root grammar matches the code span of the first
+    list without unparsable sections, it matches the code span of the second list, again without
+    unparsable sections, and the two match trees have the same code view. *)
+Theorem pem_layout_invariant g bs rx rx' fuel m :
+  gap_safe_b g = true -> Forall (blk_ok g) bs -> rx_compat bs rx rx' ->
+  parse_root g (toks_of_list (lleft bs)) rx fuel (cstart (lleft bs)) (cend (lleft bs)) = ROk m ->
+  clean_b g m = true ->
+  exists m', parse_root g (toks_of_list (lright bs)) rx' fuel (cstart (lright bs)) (cend (lright bs)) = ROk m'
+             /\ clean_b g m' = true /\ cview (lright bs) m' = cview (lleft bs) m.
+Proof.
+  intros Hs Hok Hrx H Hc.
+  pose proof (parse_root_layout_sim g (compute_U g) bs rx rx' Hs Hok Hrx fuel _ _ _ _
+                (cstart_sim g bs Hok) (cend_sim g bs Hok)) as Hsim.
+  rewrite H in Hsim.
+  destruct (parse_root g (toks_of_list (lright bs)) rx' fuel (cstart (lright bs)) (cend (lright bs))) as [m'| | |];
+    cbn in Hsim; try contradiction.
+  exists m'. split; [reflexivity|]. split.
+  - rewrite (clean_sim g _ _ _ Hsim). exact Hc.
+  - apply (cview_sim g bs Hok). exact Hsim.
+Qed.
+
+(** and whatever the outcome: the same class of result (parse error, the same abort, out of fuel) *)
+Theorem pem_layout_same_outcome g bs rx rx' fuel s s' e e' :
+  gap_safe_b g = true -> Forall (blk_ok g) bs -> rx_compat bs rx rx' -> Rb bs s s' -> Rb bs e e' ->
+  match parse_root g (toks_of_list (lleft bs)) rx fuel s e, parse_root g (toks_of_list (lright bs)) rx' fuel s' e' with
+  | ROk m, ROk m' => clean_b g m' = clean_b g m /\ cview (lright bs) m' = cview (lleft bs) m
+  | RErr, RErr => True
+  | RPanic p, RPanic p' => p = p'
+  | RFuel, RFuel => True
+  | _, _ => False
+  end.
+Proof.
+  intros Hs Hok Hrx Hss Hee.
+  pose proof (parse_root_layout_sim g (compute_U g) bs rx rx' Hs Hok Hrx fuel _ _ _ _ Hss Hee) as Hsim.
+  destruct (parse_root g (toks_of_list (lleft bs)) rx fuel s e),
+           (parse_root g (toks_of_list (lright bs)) rx' fuel s' e'); cbn in Hsim; try contradiction; auto.
+  split; [apply (clean_sim g _ _ _ Hsim)|apply (cview_sim g bs Hok); exact Hsim].
+Qed.
